@@ -291,9 +291,18 @@ let oracle line =
              must, with the library's frame references that the model recorded, be accepted by the checker for
              histories with events (LifeSpecEv.v) *)
           let full = (match run_script fixed fuel script with VOk h -> h.tr | VFault (_, _, h) -> h.tr | VNoFuel _ -> []) in
-          if evfree && wf_client script && not (client_okb fuel script (heap0 fixed))
+          (* the theorems are about the variant in which DESTROY handlers make no calls; on a history that binds no
+             DESTROY handler with calls it must give the very observation of the variant that is compared with the library *)
+          let rec calls_in_destroy o = (match o with
+            | OBind (_, _, HDestroy, _, _, acts) -> List.exists (fun a -> a <> ONop) acts || List.exists calls_in_destroy acts
+            | OBind (_, _, _, _, _, acts) -> List.exists calls_in_destroy acts
+            | _ -> false) in
+          let dquiet = not (List.exists calls_in_destroy script) in
+          if dquiet && model_W fixed (List.tl (split_ws case)) <> model_W fixedh (List.tl (split_ws case))
+          then "BAD the two variants of the model differ on a history without calls from DESTROY handlers"
+          else if evfree && wf_client script && not (client_okb fuel script (heap0 fixed))
           then "BAD discipline accepts a history outside the theorems' hypothesis"
-          else if full <> [] && wf_client (List.filter client_call (List.rev full)) && not (wf_trace full)
+          else if dquiet && full <> [] && wf_client (List.filter client_call (List.rev full)) && not (wf_trace full)
           then "BAD the discipline for histories with events rejects a trace that the client discipline accepts"
           else if oracle_W ops completed leak then "OK" else "BAD well-formed client, implementation: " ^ obs)
      | "O" :: toks ->
@@ -317,6 +326,7 @@ let () =
   let f = match mode with
     | "oracle" -> oracle
     | "model-pinned" -> model pinned
-    | _ -> model fixed in
+    | "model-nodh" -> model fixed
+    | _ -> model fixedh in
   iter_lines (fun l -> print_endline (try f l with Failure m -> "ERR " ^ m | Not_found -> "ERR notfound"
                                                | Invalid_argument m -> "ERR " ^ m))
